@@ -1,3 +1,4 @@
 import Dos.Store
+import Dos.Ops
 import Dos.Wire
 import Dos.StoreDriver
